@@ -93,6 +93,23 @@ fn isolation(seed: u64) -> Scenario {
         d.pause_before = rng.range(1, 50);
         d.payload_len = d.payload_len.min(64);
     }
+    // in a third of the cases the application of one endpoint does not fetch its datagrams at all (or only slowly) while the
+    // peer sends more of them than its datagram buffer holds: "datagrams are dropped instead of blocking" - the streams and the
+    // late opens of this scenario must not notice
+    let mut dg_recv = [Some((0, 0)), Some((0, 0))];
+    if rng.chance(1, 3) {
+        let e = rng.below(2) as usize; // the flooding side
+        let cap = cfg[1 - e].dgram_buf.min(24);
+        let mut more = streams::gen_dgrams(&mut rng, 2 * cap + 3, 1000);
+        for (k, d) in more.iter_mut().enumerate() {
+            d.from = e as u8;
+            d.pause_before = if k == 0 { rng.range(0, 20) } else { 0 };
+            d.payload_len = d.payload_len.min(64);
+            d.host_len = d.host_len.min(40);
+        }
+        dgrams.extend(more);
+        dg_recv[1 - e] = if rng.chance(2, 3) { None } else { Some((0, rng.range(20, 60))) };
+    }
     Scenario {
         seed,
         cfg,
@@ -102,7 +119,7 @@ fn isolation(seed: u64) -> Scenario {
         flush_pending: [0, 0],
         streams: plans,
         dgrams,
-        dg_recv: [Some((0, 0)), Some((0, 0))],
+        dg_recv,
         faults: [None, None],
         drop_first: rng.below(3) as u8,
         binds: vec![],
